@@ -198,7 +198,7 @@ func checkC06(c *Ctx) {
 	c.tipIndexReset("PATH")
 	c.memoStale("STALE-MEMO", "cmd", "cmd/prune.go", "its tip set is exactly the requested one")
 	c.Decides("SCANNER-ERR: no function of the repository (the tip-file reader of prune -f included) loops on a bufio.Scanner without looking at its Err(): a line longer than the scanner's buffer would silently truncate the list of requested tips")
-	ns, _ := c.scannerErr("SCANNER-ERR", c.AllFuncs(), "its tip set is exactly the requested one")
+	ns, _ := c.scannerErr("SCANNER-ERR", append(c.AllFuncs(), c.PkgLevelClosures()...), "its tip set is exactly the requested one")
 	c.Trivial("SCANNER-ERR", "scan", 0, fmt.Sprintf("%d bufio.Scanner loops in the repository", ns))
 	if fx := c.Fixture(); fx != nil {
 		sub := c.subCtx(fx)
